@@ -77,6 +77,11 @@ func (b *BFT) getProposal(round uint64, phase Phase) *Message {
 	if !found {
 		return nil
 	}
+	// a leader message is only used at the root height its certificate was validated against: the Pacemaker may move this
+	// replica to a new root height (RefreshRootChainInfo) without the NEW_COMMITTEE reset that drops the stored messages
+	if m := proposal[0]; m != nil && m.Qc != nil && m.Qc.Header != nil && m.Qc.Header.RootHeight != b.RootHeight {
+		return nil
+	}
 	return proposal[0]
 }
 
